@@ -224,6 +224,9 @@ class Interp:
         self.st.pc.append(cond if d else z3.Not(cond))
         return d
 
+    def exc_allowed_or_caught(self, exc):
+        return self.ctx.exception_allowed(self, exc)
+
     def provable(self, cond, timeout_ms=2000):
         """Quick side query used to choose an encoding (never a verdict)."""
         if isinstance(cond, bool):
@@ -357,7 +360,7 @@ class Interp:
         if seq.th is T.SeqS:
             return VSeq(t, seq.ekind or 'bytes')
         if seq.th is T.SeqO:
-            return VOpaque(t)
+            return VOpaque(t, seq.ekind or '')
         th = seq.th
         wrap = getattr(th, 'wrap', None)
         if wrap:
@@ -661,7 +664,7 @@ class Interp:
             h = self.ctx.comprehension_hook(self, node, it, frame)
             if h is not None:
                 return h
-            raise Unsupported('comprehension over a symbolic iterable', node)
+            return self.symbolic_comprehension(node, it, frame)
         out = []
         fr = Frame({}, frame.module, frame.cls, frame.finfo, parent=frame, sidecar=frame.sidecar)
         fr.spec = frame.spec
@@ -722,6 +725,8 @@ class Interp:
                 return VSeq(z3.If(c, a.t, a.th.Empty), a.kind, a.th, a.ekind)
         if isinstance(a, VOpaque) and isinstance(b, VOpaque):
             return VOpaque(z3.If(c, a.t, b.t))
+        if isinstance(a, VMap) and isinstance(b, VMap) and a.th is b.th:
+            return VMap(z3.If(c, a.t, b.t), a.th, a.kkind, a.vkind)
         if isinstance(a, VNone) and isinstance(b, VNone):
             return NONE
         if isinstance(a, VNone):
@@ -1313,6 +1318,39 @@ class Interp:
             return h
         raise Unsupported('subscript of %r' % (obj,), node)
 
+    def symbolic_comprehension(self, node, it, frame):
+        """[f(x) for x in s] over a symbolic sequence s, for an element expression f that is a pure function of x:
+        the result is a fresh sequence r with |r| = |s| and r[i] = f(s[i]) for all i."""
+        g = node.generators[0]
+        if g.ifs:
+            raise Unsupported('filtered comprehension over a symbolic iterable', node)
+        s = self.seq_of(it, node)
+        self.ctx.qcount += 1
+        cx = z3.Const('cx!%d' % self.ctx.qcount, s.th.elem)
+        counter0 = self.st.counter
+        npc = len(self.st.pc)
+        fr = Frame({}, frame.module, frame.cls, frame.finfo, parent=frame, sidecar=frame.sidecar)
+        fr.spec = frame.spec
+        self.assign(g.target, self.wrap_elem(s, cx), fr)
+        ntrace = len(self.st.trace)
+        v = self.ev(node.elt, fr)
+        if self.st.counter != counter0 or len(self.st.pc) != npc:
+            raise Unsupported('comprehension element is not a pure function of the iteration variable', node)
+        del self.st.trace[ntrace:]
+        v = self.unwrap(v, node)
+        if isinstance(v, VInt):
+            th, tv, kind = T.SeqI, v.t, None
+        elif isinstance(v, VSeq) and v.th is T.SeqI:
+            th, tv, kind = T.SeqS, v.t, v.kind
+        else:
+            th, tv, kind = T.SeqO, self.ctx.obj_term(self, v, node), getattr(v, 'label', '')
+        r = self.fresh('comp', th.sort)
+        i = z3.Int('ci!%d' % self.ctx.qcount)
+        self.assume(th.Len(r) == s.th.Len(s.t))
+        body = th.Idx(r, i) == z3.substitute(tv, (cx, s.th.Idx(s.t, i)))
+        self.assume(z3.ForAll([i], z3.Implies(z3.And(0 <= i, i < s.th.Len(s.t)), body), patterns=[th.Idx(r, i)]))
+        return self.alloc(HList(VSeq(r, 'list', th, ekind=kind), 'list'))
+
     def index_seq(self, s, idx, node):
         i = self.as_int(idx, node)
         L = s.th.Len(s.t)
@@ -1384,7 +1422,7 @@ class Interp:
         if isinstance(f, VType):
             return self.ctx.builtins.call(self, f.name, args, kwargs, node)
         if isinstance(f, VClosure):
-            return self.call_closure(f, args, kwargs, node)
+            return self.call_closure(f, args, kwargs, node, caller=frame)
         if isinstance(f, VSpecFunc):
             return self.ctx.apply_spec(self, f.spec, args, node)
         if isinstance(f, VOpaque):
@@ -1473,11 +1511,11 @@ class Interp:
         finally:
             self.depth -= 1
 
-    def call_closure(self, f, args, kwargs, node):
+    def call_closure(self, f, args, kwargs, node, caller=None):
         n = f.node
         env = self.bind_args(n, args, kwargs, node, frame_for_defaults=f.frame, qual='<lambda>')
         fr = Frame(env, f.frame.module, f.frame.cls, f.frame.finfo, parent=f.frame, sidecar=f.frame.sidecar)
-        fr.spec = f.frame.spec
+        fr.spec = f.frame.spec if f.frame.spec is not None else (caller.spec if caller is not None else None)
         if isinstance(n, ast.Lambda):
             return self.ev(n.body, fr)
         try:
